@@ -837,6 +837,25 @@ class MeshRegion:
         self.dx.centre = (self.psi_vals[2::2] - self.psi_vals[:-2:2])[:, numpy.newaxis]
         self.dx.ylow = (self.psi_vals[2::2] - self.psi_vals[:-2:2])[:, numpy.newaxis]
 
+        # dx at the x-faces (xlow and corners) is the distance in psi between the cell
+        # centres on either side of the face, as used by DDX(). At the radial boundaries
+        # of the region use the half-cell of the neighbouring region, or twice the
+        # half-cell of this region at a boundary of the grid.
+        dx_xlow = numpy.zeros(self.nx + 1)
+        dx_xlow[1:-1] = self.psi_vals[3::2] - self.psi_vals[1:-2:2]
+        inner_half = self.psi_vals[1] - self.psi_vals[0]
+        outer_half = self.psi_vals[-1] - self.psi_vals[-2]
+        inner = self.getNeighbour("inner")
+        outer = self.getNeighbour("outer")
+        dx_xlow[0] = inner_half + (
+            inner.psi_vals[-1] - inner.psi_vals[-2] if inner is not None else inner_half
+        )
+        dx_xlow[-1] = outer_half + (
+            outer.psi_vals[1] - outer.psi_vals[0] if outer is not None else outer_half
+        )
+        self.dx.xlow = dx_xlow[:, numpy.newaxis]
+        self.dx.corners = dx_xlow[:, numpy.newaxis]
+
         if self.psi_vals[0] > self.psi_vals[-1]:
             # x-coordinate is -psixy so x always increases radially across grid
             self.bpsign = -1.0
